@@ -22,10 +22,12 @@ ClassOf(kind) ==
 
 CallOk(c, kind) == IF c.fired THEN c.res = ClassOf(kind) ELSE c.res = "ok"
 
+\* Cursor programs keep issuing operations after the failed one: what those answer is not specified
+\* (an error is acceptable), but none of them may panic -- no component fails during them.
 RunOk(kind, fired, notable) ==
-    /\ \A i \in 1..Len(notable) : CallOk(notable[i], kind)
-    /\ Len(notable) <= 1
-    /\ fired <=> (\E i \in 1..Len(notable) : notable[i].fired)
+    /\ Len(notable) >= 1 => CallOk(notable[1], kind)
+    /\ \A i \in 2..Len(notable) : ~notable[i].fired /\ notable[i].res # "panic"
+    /\ fired <=> (Len(notable) >= 1 /\ notable[1].fired)
 
 \* when no component fails, no error is reported; and a sink that was written to has been
 \* flushed before it is handed back (otherwise a failure of the sink's flush could never surface)
